@@ -132,7 +132,7 @@ def make_cases(rng, n_schemas: int, per_schema: int, depth: int = 3):
     for si in range(n_schemas + n_indexed):
         indexed = si >= n_schemas
         sg = gen.SchemaGen(rng, gen.GenOpts(depth=depth, coq_only=True, named=True, mixin=rng.random() < 0.4,
-                                            configs=rng.random() < 0.5, abstract=False, unpacked=False))
+                                            configs=rng.random() < 0.5))
         sg.tag = f"e{si}_"
         c = rng.random()
         if indexed:
